@@ -308,9 +308,11 @@ def gen_many_files_buffer(rng, files):
     b.add('    return pa')
     b.add('')
     b.add('')
-    b.add('local = target(2j)', [('get_references', 'targ', None), ('get_references', 'targ', {'scope': 'file'}),
-                                 ('infer', 'loca', None), ('goto', 'targ', None)])
-    b.add('local.x', [('complete', 'local.', None)])
+    # no CALL of target in this file: the parameter types can only come from the call sites in other files
+    # (a call here would end the dynamic-parameter search in this module)
+    b.add('alias = target', [('get_references', 'targ', None), ('get_references', 'targ', {'scope': 'file'}),
+                             ('infer', 'alia', None), ('goto', 'targ', None)])
+    b.add('alias.x', [('complete', 'alias.', None)])
     # iterating a list / set literal starts the search for calls that add elements to it
     b.add('for flag in [1.5, "s"]:')
     b.add('    flag', [('infer', '    fla', None)])
@@ -403,6 +405,7 @@ def gen_case(seed, tier, i):
             'gc_each': rng.random() < 0.3,
             # the absolute path of the project is part of what a process sees: vary its length
             'pad': 'p' * rng.choice([0, 0, 1, 2, 3, 5, 8, 13]),
+            'reverse': j == 0,
         })
     # schedule: permutation with repetitions, <= 8 distinct probes
     idxs = list(range(len(probes)))
@@ -443,7 +446,12 @@ def base_ops(case, cfg):
     ops = []
     if cfg.get('perturb'):
         ops.append(dict(cfg['perturb'], op='perturb'))
-    for i, p in enumerate(case['probes']):
+    order = list(enumerate(case['probes']))
+    if cfg.get('reverse'):
+        # the same probes, each on its own fresh Script, asked in the opposite order: what one Script's
+        # query leaves behind in the PROCESS (settings, module-level tables) must not change another's answer
+        order.reverse()
+    for i, p in order:
         ops.append(_script_op(case, 'b%d' % i))
         if cfg.get('gc_each'):
             ops.append({'op': 'gc'})
